@@ -307,7 +307,7 @@ Proof.
   assert (Gres : forall p, G p -> exists t rs,
       resolve_ptr (bm_data m) (fst p) (snd p) = (t, rs) /\ is_bad t = false /\ NoDup (children t) /\
       (forall c, In c (children t) -> G c) /\ Forall (Rg objs pads) rs).
-  { intros p Hp. destruct (hi_slots _ _ _ H p Hp) as (t & rs & E & S & C).
+  { intros p Hp. destruct (hinv_slot_res _ _ _ _ H Hp) as (t & rs & E & S & C).
     destruct (resolve_children _ _ _ _ _ E S) as (N & Z1 & Z2).
     exists t, rs. split; [exact E|]. split; [destruct t; cbn in *; auto; contradiction|]. split; [exact N|].
     destruct C as [[-> _]|(ps & r & -> & Ips & D)].
@@ -354,7 +354,10 @@ Proof. split; [reflexivity|]. split; [repeat constructor; lia|cbn; lia]. Qed.
 
 Definition ex2_ops : list bop :=
   [BNewStruct 0 0 1; BNewComp 0 8 1 2; BSetPtr 0 0 1; BRead InDst (OLStruct 1 1); BSetUint 2 0 8 7;
-   BNewStruct 0 8 0; BSetPtr 2 0 3; BNewPList 0 1; BPLSet 4 0 3; BListSetUint 1 0 8 9; BSetRoot 0].
+   BNewStruct 0 8 0; BSetPtr 2 0 3; BNewPList 0 1; BPLSet 4 0 3; BListSetUint 1 0 8 9; BSetRoot 0;
+   BRead InDst ORoot; BRead InDst (OSPtr 5 0); BRead InDst (OPLAt 4 0); BNewCap 0 3; BAddCap 7;
+   BSetPtr 0 0 8; BReopen; BRead InDst ORoot;
+   BNewPrim 0 2 3; BListSetUint 10 1 2 513; BRead InDst (OLStruct 10 1); BSetPtr 9 0 11].
 Definition ex2_env := mkEnv (mkCfg 0 0 true true) (mkCfg 0 0 true true) 0 64%nat.
 Definition ex2_m : bmsg := mkBM AMulti [mkBS [0; 0; 0; 0; 0; 0; 0; 0] 1024] [] 67108864.
 Definition ex2_st0 := mkBSt (mkW ex2_m [] 100) [].
@@ -369,9 +372,9 @@ Example sublang_example2 :
   sub_prog ex2_ops = true /\
   plain_run ex2_env ex2_st0 ex2_ops /\
   Forall seg_bound (bstates ex2_env ex2_st0 ex2_ops) /\
-  map (fun st => valid_message (bm_data (w_dst (st_w st)))) (bstates ex2_env ex2_st0 ex2_ops) = repeat VOk 12.
+  map (fun st => valid_message (bm_data (w_dst (st_w st)))) (bstates ex2_env ex2_st0 ex2_ops) = repeat VOk 24.
 Proof.
   split; [vm_compute; reflexivity|]. split; [reflexivity|]. split.
-  - vm_compute. repeat split; intros; reflexivity.
+  - vm_compute. repeat split; intros; try reflexivity; discriminate.
   - split; [apply seg_bound_b; vm_compute; reflexivity|vm_compute; reflexivity].
 Qed.
